@@ -40,6 +40,8 @@ class Ctx:
         self.osattrs = {}         # OSAttribute locals constructed from a boolean literal: name -> '1' | '0'
         self.depth = 0
         self.havoc = False
+        self.skip_setters = False
+        self.body_text = ''
         self.assigned_locals = set()   # locals (not parameters): their members are not 'caller memory'
         self.written_derefs = set()
         self.enumerators = set()  # identifiers that may be translated as uninterpreted enumerator constants (prefix mode)
@@ -247,6 +249,7 @@ def is_log(e):
 # non-const reference are re-bound to fresh, universally quantified parameters.  Sound for theorems of the form
 # "the body is reached only if ...": whatever the helper returned, the guards that follow were applied to those values.
 HAVOC_CALLEES = ('extractObjectInformation',)
+HAVOC_METHODS = ('getTokenFlags',)      # bool f(T& out): the out-parameter becomes a fresh value, the result an uninterpreted one
 
 
 def havoc_call(c, s):
@@ -298,6 +301,18 @@ def mentions(e, pred):
         return any(mentions(x, pred) for x in e[1:])
     if isinstance(e, list):
         return any(mentions(x, pred) for x in e)
+    return False
+
+
+def is_unread_setter(c, e):
+    """X->setFoo(...) where the function never calls X->getFoo / isFoo: a state change nothing in this function observes"""
+    if e[0] == 'call' and e[1][0] == 'field' and (e[1][1][0] == 'var' or (e[1][1][0] == 'field' and e[1][1][1][0] == 'this')):
+        m = e[1][2].split('::')[-1]
+        if m.startswith('set') and len(m) > 3:
+            foo = m[3:]
+            # no getter of the same property textually after the (last) setter: statement order is program order (no loops)
+            tail = c.body_text[c.body_text.rindex(m):]
+            return ('get' + foo) not in tail and ('is' + foo) not in tail and not mentions(e[2], lambda x: x[0] == 'refarg')
     return False
 
 
@@ -356,6 +371,36 @@ def havoc_scalar(c, s):
     c.extern(p, ty)
     c.types[target] = ty
     return (ident(target), p)
+
+
+def havoc_method_in_cond(c, cond):
+    """`!obj->getTokenFlags(flags)` (possibly negated): replace the call by a fresh boolean and re-bind the out-parameter"""
+    neg = False
+    e = cond
+    if e[0] == 'un' and e[1] == '!':
+        neg, e = True, e[2]
+    if e[0] == 'un' and e[1] == 'tobool':
+        e = e[2]
+    if not (e[0] == 'call' and e[1][0] == 'field' and e[1][2].split('::')[-1] in HAVOC_METHODS):
+        return None
+    refs = [a[1] for a in e[2] if a[0] == 'refarg']
+    if not refs or len(refs) != len(e[2]):
+        return None
+    c.fresh += 1
+    n = c.fresh
+    ok = 'hv%d_%s_ok' % (n, ident(e[1][2].split('::')[-1]))
+    c.extern(ok, 'bool')
+    c.types[ok] = 'bool'
+    binds = []
+    for v in refs:
+        p = 'hv%d_%s' % (n, ident(v))
+        ty = c.types.get(v, 'N')
+        c.extern(p, ty)
+        binds.append((ident(v), p))
+    newcond = ('var', ok)
+    if neg:
+        newcond = ('un', '!', newcond)
+    return newcond, binds
 
 
 def always_exits(ss):
@@ -421,6 +466,8 @@ def tr_s_inner(c, ss, k_fall, k_break):
         return tr_s(c, rest, k_fall, k_break)
     if c.havoc and k == 'expr' and is_cleanup(s[1]):
         return tr_s(c, rest, k_fall, k_break)
+    if c.skip_setters and k == 'expr' and is_unread_setter(c, s[1]):
+        return tr_s(c, rest, k_fall, k_break)
     if c.havoc and k == 'expr' and s[1][0] == 'bin' and s[1][1] == '=' and s[1][2][0] == 'un' and s[1][2][1] == '*' and s[1][2][2][0] == 'var' and not c.eff:
         # *pOut = value: a write to caller memory through an out-pointer; reading it back later ends the prefix
         as_N(c, s[1][3])
@@ -439,6 +486,11 @@ def tr_s_inner(c, ss, k_fall, k_break):
         e = s[1]
         if is_log(e):
             return tr_s(c, rest, k_fall, k_break)
+        if e[0] == 'bin' and e[1] in ('|=', '&=', '+=') and e[2][0] == 'var' and c.types.get(e[2][1]) == 'N':
+            x = ident(e[2][1])
+            rhs = as_N(c, e[3])
+            val = {'|=': '(N.lor %s %s)', '&=': '(N.land %s %s)', '+=': '((%s + %s) mod 18446744073709551616)'}[e[1]] % (x, rhs)
+            return '(let %s := %s in %s)' % (x, val, tr_s(c, rest, k_fall, k_break))
         if e[0] == 'bin' and e[1] == '=' and e[2][0] == 'var' and e[2][1] in c.types:
             v, ty = tr_e(c, e[3])
             if ty != c.types[e[2][1]]:
@@ -457,6 +509,13 @@ def tr_s_inner(c, ss, k_fall, k_break):
         v = as_bool(c, s[3]) if ty == 'bool' else as_N(c, s[3])
         c.types[s[1]] = ty
         return '(let %s := %s in %s)' % (ident(s[1]), v, tr_s(c, rest, k_fall, k_break))
+    if k == 'if' and c.havoc:
+        hm = havoc_method_in_cond(c, s[1])
+        if hm is not None:
+            (newcond, binds) = hm
+            s = ('if', newcond, s[2], s[3])
+            inner = tr_s_inner(c, [s] + list(rest), k_fall, k_break)
+            return ''.join('(let %s := %s in ' % b for b in binds) + inner + ')' * len(binds)
     if k == 'if':
         cond = as_bool(c, s[1])
         t_exit, e_exit = always_exits(s[2]), always_exits(s[3])
@@ -590,12 +649,14 @@ def _reset_stop():
     LAST_STOP = None
 
 
-def translate(name, params, ptypes, ret_type, body, consts, extern_types=None, drop_params=(), eff=False, prefix=False, havoc=False):
+def translate(name, params, ptypes, ret_type, body, consts, extern_types=None, drop_params=(), eff=False, prefix=False, havoc=False, skip_setters=False):
     """-> Coq source of `Definition gen_<name> ...`.  params/ptypes from the C++ declaration."""
     _reset_stop()
     c = Ctx(name, consts, ret_type in BOOL_TYPES, extern_types)
     c.eff, c.prefix = eff, prefix
     c.havoc = havoc
+    c.skip_setters = skip_setters
+    c.body_text = repr(body)
     plist = []
     for p, t in zip(params, ptypes):
         if p in drop_params or p == '_' or not p:
